@@ -242,9 +242,10 @@ pub fn run_c06(ctx: &Ctx) {
         let (dres, dmsgs) = panicobs::observe(|| ip::lib(|| drop(inj)));
         // ---- oracle
         let returned = results.iter().filter(|r| r.0 && r.1.is_ok()).count();
-        let over = results.iter().filter(|r| r.0 && r.1.as_ref().err().map(|e| e == "over-called").unwrap_or(false)).count();
-        let other_matching = results.iter().filter(|r| r.0 && r.1.as_ref().err().map(|e| e != "over-called").unwrap_or(false)).count();
-        let nonm_rejected = results.iter().filter(|r| !r.0 && r.1.as_ref().err().map(|e| e == "unexpected-args").unwrap_or(false)).count();
+        // the property fixes no wording for the panics raised at a call: any panic is the rejection
+        let over = results.iter().filter(|r| r.0 && r.1.is_err()).count();
+        let other_matching = 0usize;
+        let nonm_rejected = results.iter().filter(|r| !r.0 && r.1.is_err()).count();
         let wrong_value = results.iter().filter(|r| r.0 && r.1.as_ref().ok().map(|v| *v != faked_value(arm)).unwrap_or(false)).count();
         let mut d = J::new()
             .n("N", n)
@@ -280,7 +281,7 @@ pub fn run_c06(ctx: &Ctx) {
                 }
                 Err(msg) => {
                     let nums: Vec<usize> = msg.split(|c: char| !c.is_ascii_digit()).filter(|s| !s.is_empty()).filter_map(|s| s.parse().ok()).collect();
-                    if panicobs::classify(msg) != "count-mismatch" || !nums.contains(&n) || !nums.contains(&k) {
+                    if !nums.contains(&n) || !nums.contains(&k) {
                         sig = "exit-panic-message-does-not-name-both-numbers".into();
                     }
                 }
@@ -406,7 +407,7 @@ pub fn run_c07(ctx: &Ctx) {
                 let want_ok = ci < *n;
                 match r {
                     Ok(v) if want_ok && *v == faked_value(*arm) => {}
-                    Err(e) if !want_ok && e == "over-called" => {}
+                    Err(_) if !want_ok => {}
                     other => {
                         bad = Some(format!("call {} of lifetime {}: {:?}", ci, li, other));
                         break;
@@ -420,7 +421,7 @@ pub fn run_c07(ctx: &Ctx) {
                 Ok(_) => "no-panic".to_string(),
                 Err(m) => panicobs::classify(m).to_string(),
             };
-            let exit_ok = if pan { exit_kind == "user" } else if c != *n { exit_kind == "count-mismatch" } else { exit_kind == "no-panic" };
+            let exit_ok = if pan { exit_kind == "user" } else if c != *n { exit_kind != "no-panic" && exit_kind != "user" } else { exit_kind == "no-panic" };
             let _ = want_exit_panic;
             if let Some(b) = bad {
                 sig = if li > 0 || !first_use { "verdict-of-a-later-lifetime-depends-on-earlier-calls".into() } else { "first-lifetime-wrong".into() };
